@@ -2,6 +2,7 @@ package main
 
 import (
 	"fmt"
+	"strings"
 	"go/constant"
 	"go/token"
 	"go/types"
@@ -277,7 +278,10 @@ func (fr *Frame) reachCheck(st *State, ins ssa.Instruction) {
 	}
 	for _, rc := range fr.contract.Reach {
 		if rc.Stmt != txt {
-			continue
+			// "prefix..." matches statements whose text starts with prefix
+			if !strings.HasSuffix(rc.Stmt, "...") || !strings.HasPrefix(txt, strings.TrimSuffix(rc.Stmt, "...")) {
+				continue
+			}
 		}
 		key := fmt.Sprintf("%s@%d", rc.Stmt, ins.Block().Index)
 		if fr.reachDone == nil {
@@ -288,6 +292,7 @@ func (fr *Frame) reachCheck(st *State, ins ssa.Instruction) {
 		}
 		fr.reachDone[key+rc.Clause.Text] = true
 		env := fr.specEnv(st)
+		env.vars = map[string]*Val{} // names denote current values at the statement
 		env.lookup = func(s *State, name string) (*Val, bool) { return fr.lookupLocal(s, name, pos) }
 		g, err := env.evalBool(rc.Clause.Expr)
 		if err != nil {
@@ -323,6 +328,7 @@ func (fr *Frame) execAlloc(st *State, in *ssa.Alloc) {
 	if in.Heap && isStruct(t) && !fr.allocStaysLocal(in) {
 		r := x.allocStruct(st, t, nil)
 		fr.set(in, &Val{Ty: in.Type(), L: []string{r}})
+		fr.heapAllocs = append(fr.heapAllocs, in)
 		return
 	}
 	c := x.newCell(in.Comment, t, in.Pos())
